@@ -8,6 +8,7 @@ from . import tokens as T
 from . import c10
 
 EXPLANATION = (
+    "(sound) on the expression catalogue (sa/rules/exhaust.py: every top-level sequence of up to two / three segments around one alternation or repetition whose sub-expressions have up to two segments, two branch tokens in one sequence, a branch nested in a repetition; built as the parser builds them, kept when the rule checker accepts them) and on a catalogue of literal shapes (literals, alternations of equal and different literal branches, exactly and loosely bounded repetitions of literals, with and without a root), invariant text reported by Token::variance::<Text> is exactly the language of the emitted program ({text}); for the shapes of the catalogue, not for all expressions.  For all inputs, the finite parts: "
     "Static decision of the finite parts of the text variance: (leaf) the text term of every leaf kind - a literal is "
     "invariant unless its case flag differs from the platform's and it has casing, a negated class is variant, a class is "
     "the disjunction of its archetypes (single character / degenerate range invariant), a separator is the invariant "
@@ -15,7 +16,7 @@ EXPLANATION = (
     "repeated(n) yields n copies; (disj) a disjunction of invariants is invariant only when the operands are equal; the "
     "fold operators are those of C10.ops; TextVariance::from maps an invariant to its text.  That the invariant text of a "
     "built glob is matched by it follows from C01.leaf (a literal matches exactly its escaped text) and is not decided.")
-RULES = "C11.leaf (TABLE), C11.order (EFFECT), C11.disj (TABLE), C11.convert (TABLE)"
+RULES = "C11.sound (TABLE on a catalogue: verdict vs. language), C11.leaf (TABLE), C11.order (EFFECT), C11.disj (TABLE), C11.convert (TABLE)"
 
 VAR = "token::variance::Variance"
 BND = "token::variance::Boundedness"
@@ -78,6 +79,8 @@ def run(ctx):
     rule_order(F, R)
     rule_disj(F, R)
     rule_convert(F, R)
+    from . import exhaust
+    exhaust.report_query(F, R, "C11.sound", ctx.tier, "text", 5000, 200)
 
 
 def rule_leaf(F, R):
